@@ -19,7 +19,7 @@ func init() {
 	core.Register(&core.Prop{
 		ID: "C13",
 		Rule: "case = one curve with 0..120 (400 thorough) pairwise-distinct vertices (incrementally built random simple lines checked by the exact simplicity test, monotone lines, zigzags, spirals, 'hook' lines whose end returns near the start, near-collinear runs, and unfiltered random lines for the termination/subsequence/tolerance clauses) and a tolerance from {0, 1e-12 d, U(0,d), >d, +Inf}, simplified as LineString and as member of MultiLineString / ring of Polygon / MultiPolygon; " +
-			"monitors: hooked step counter (output never longer than input, loop steps <= 4n^2+100) turning non-termination into a finite violation; output is an order-preserving subsequence keeping first and last vertex; every dropped vertex within tol(1+1e-12) of its replacing segment (extended precision); exact simplicity of the output when the input is exactly simple; input unmodified; members simplified independently; " +
+			"monitors: a second high-volume phase of 'box walks' (6..40 vertices uniform in a box, exactly simple, 60% ending inside a pocket of three earlier consecutive vertices, tolerance U(0,0.4) of the box) aimed at multi-step back-off in one scan step; hooked step counter (output never longer than input, loop steps <= 4n^2+100) turning non-termination into a finite violation; output is an order-preserving subsequence keeping first and last vertex; every dropped vertex within tol(1+1e-12) of its replacing segment (extended precision); exact simplicity of the output when the input is exactly simple; input unmodified; members simplified independently; " +
 			"an evaluation is one Simplify call judged; non-trivial = simple input with >= 4 vertices from which at least one vertex was dropped; distinct by input hash",
 		Assumptions: []string{"'terminates' is decided as bounded progress on the hooked loops", "vertices pairwise distinct so that the subsequence match is unambiguous", "simplicity preservation is judged for open line strings that are simple by the exact test"},
 		Phases: []core.Phase{{Name: "curves", NumCases: func(t string) int {
@@ -27,12 +27,17 @@ func init() {
 				return 400000
 			}
 			return 24000
+		}}, {Name: "boxwalks", NumCases: func(t string) int {
+			if t == "thorough" {
+				return 3000000
+			}
+			return 90000
 		}}},
 		Run:   run,
 		Setup: func(c *core.Ctx) { geom.VerifSimplifyHook = hook },
 		Floors: func(t string) map[string]int64 {
 			return map[string]int64{"len.0": 20, "len.1": 20, "len.2": 20, "len.3": 20, "simple_input.judged": 3000, "dropped_vertices.checked": 10000, "shape.hook": 500, "shape.spiral": 500,
-				"tol.zero": 500, "tol.inf": 500, "multi.members_independent": 500, "polygon.rings": 500, "hook.steps_seen": 10000}
+				"tol.zero": 500, "tol.inf": 500, "boxwalk.simple_judged": 50000, "boxwalk.tail_returns_into_pocket": 15000, "boxwalk.vertices_dropped": 25000, "multi.members_independent": 500, "polygon.rings": 500, "hook.steps_seen": 10000}
 		},
 	})
 }
@@ -278,7 +283,90 @@ func judge(c *core.Ctx, in []geom.Point, out []geom.Point, tol float64, shape, k
 	}
 }
 
+// runBoxwalk is the cheap high-volume phase: a simple line whose vertices are
+// drawn uniformly from a box (long segments, spikes and pockets, unlike the
+// local steps of simple_walk), often ending inside a pocket formed by three
+// earlier consecutive vertices, simplified with a tolerance comparable to the
+// box. These are the inputs on which the back-off loop of simplifyCurve
+// retreats several times for different reasons in one scan step.
+func runBoxwalk(c *core.Ctx, idx int) {
+	r := c.R
+	n := r.IntRange(6, 40)
+	scale := math.Pow(10, r.Range(-1, 2))
+	ox, oy := r.Range(-5, 5)*scale, r.Range(-5, 5)*scale
+	tail := r.Chance(0.6)
+	pts := make([]geom.Point, 0, n)
+	for len(pts) < n {
+		ok := false
+		for try := 0; try < 40 && !ok; try++ {
+			p := geom.Point{X: ox + r.Float64()*scale, Y: oy + r.Float64()*scale}
+			if tail && len(pts) == n-1 {
+				k := 1 + r.Intn(len(pts)-3)
+				p = geom.Point{X: (pts[k].X+pts[k+1].X+pts[k+2].X)/3 + r.Range(-0.05, 0.05)*scale,
+					Y: (pts[k].Y+pts[k+1].Y+pts[k+2].Y)/3 + r.Range(-0.05, 0.05)*scale}
+			}
+			bad := false
+			m := len(pts)
+			for i := 0; i+1 < m && !bad; i++ {
+				rel := exact.Segments(gen.EP(pts[i]), gen.EP(pts[i+1]), gen.EP(pts[m-1]), gen.EP(p))
+				if i == m-2 {
+					bad = rel == exact.ProperCross || rel == exact.Overlap || exact.OnSegment(gen.EP(p), gen.EP(pts[i]), gen.EP(pts[i+1])) || exact.OnSegment(gen.EP(pts[i]), gen.EP(pts[m-1]), gen.EP(p))
+				} else {
+					bad = rel != exact.Disjoint
+				}
+			}
+			for _, q := range pts {
+				if q == p {
+					bad = true
+				}
+			}
+			if !bad {
+				pts = append(pts, p)
+				ok = true
+			}
+		}
+		if !ok {
+			break
+		}
+	}
+	if len(pts) < 4 {
+		return
+	}
+	simpleIn, _, _ := exact.SimplePolyline(gen.EPath(pts))
+	if !simpleIn {
+		c.Count("boxwalk.not_simple_skipped")
+		return
+	}
+	tol := scale * r.Range(0, 0.4)
+	l := geom.LineString(pts)
+	detail := map[string]interface{}{"input": gen.Dump(l), "tolerance": fmt.Sprint(tol), "shape": "boxwalk", "input_is_simple": true}
+	c.Eval()
+	res := simplifyLine(l, tol)
+	c.Add("hook.steps_seen", int64(steps))
+	if res.nonTerm {
+		c.Violate("non-terminating:len=3", fmt.Sprintf("LineString.Simplify of %d vertices exceeded the bounded-progress limit", len(pts)), detail)
+		return
+	}
+	if res.panicked != nil {
+		c.Violate("panic:LineString.Simplify", fmt.Sprintf("LineString.Simplify panicked: %v", core.Trunc(fmt.Sprint(res.panicked), 150)), detail)
+		return
+	}
+	detail["output"] = gen.Dump(geom.LineString(res.out))
+	c.Count("boxwalk.simple_judged")
+	if tail && len(pts) == n {
+		c.Count("boxwalk.tail_returns_into_pocket")
+	}
+	if len(res.out) < len(pts) {
+		c.Count("boxwalk.vertices_dropped")
+	}
+	judge(c, pts, res.out, tol, "boxwalk", "LineString", true, detail)
+}
+
 func run(c *core.Ctx, idx int) {
+	if c.Phase == "boxwalks" {
+		runBoxwalk(c, idx)
+		return
+	}
 	r := c.R
 	maxN := 120
 	if c.Thorough() && r.Chance(0.05) {
